@@ -117,6 +117,7 @@ def check(ctx):
         from core import Relabel
         c19.check_config(Relabel(ctx, {"C19.R2.validation-matches-builder": "C06.R6.validation-matches-builder"}), ctx.facts(cfg), "" if cfg == "native" else "@" + cfg)
         check_sparse_validation(ctx, ctx.facts(cfg), "" if cfg == "native" else "@" + cfg)
+        check_sparse_bucket_count(ctx, ctx.facts(cfg), "" if cfg == "native" else "@" + cfg, "C06.R5.sparse-bucket-count")
         c19.check_sparse_builder_enables(ctx, ctx.facts(cfg), "" if cfg == "native" else "@" + cfg, "C06.R5")
         check_no_read_ahead(ctx, ctx.facts(cfg), "" if cfg == "native" else "@" + cfg)
         check_refusal_inventory(ctx, ctx.facts(cfg), "" if cfg == "native" else "@" + cfg, "C06.R6.loader-refusals-reviewed", lambda n: n.endswith("serialize::Serialize>::load"))
@@ -191,6 +192,33 @@ def check_no_read_ahead(ctx, F, tag):
                     hits.append((b.name, loc(t["sp"])))
     ctx.ob("C06.R7.no-read-ahead-on-the-callers-reader", "crate" + tag, "src/", not hits, "who-may-call",
            "buffering readers wrapped around a reader the caller passed in (count must be 0): %s" % hits, nontrivial=False, positive=True)
+
+
+def check_sparse_bucket_count(ctx, F, tag, rule):
+    """The length of the sparse vector's `high` bitvector is ones + number of buckets, and the number of buckets for a universe N
+    and low width w is ceil(N / 2^w) -- the builder allocates by it and the loader refuses a file that disagrees.  The private
+    helper that computes it branches (on w < 64, on a non-zero remainder), so it is followed path by path over the residues of N
+    (A13, residues.run_body) for the widths 1, 6, 8 and 10 and compared with the closed form.  Decides the count for those widths
+    and every N; one bucket too many for N = 0, or a shift guarded by a byte count, differ for some residue."""
+    import residues
+    GB = "sparse_vector::SparseBuilder::get_buckets"
+    if not F.has_body(GB):
+        return
+    b = F.body(GB)
+    if b.nargs != 2:
+        ctx.ob(rule, GB + tag, loc(b.raw["span"]), None, "abstract-interpretation(residues)", "get_buckets no longer takes (universe, low_width)")
+        return
+    verdict, notes = True, []
+    for w in (1, 6, 8, 10):
+        want = lambda N, w=w: ("call", "usize::div_ceil", (N, ("const", 1 << w)), (), "usize::div_ceil")
+        r_, why = residues.fn_agrees(F, GB, [residues.NVAR, ("const", w)], want, (max(64, 1 << w),))
+        notes.append("w = %d: %s" % (w, why))
+        if r_ is False:
+            verdict = False
+        elif r_ is None and verdict:
+            verdict = None
+    ctx.ob(rule, GB + tag, loc(b.raw["span"]), verdict, "abstract-interpretation(residues)",
+           "get_buckets(N, w) against ceil(N / 2^w): " + "; ".join(notes), positive=verdict is False)
 
 
 def check_sparse_validation(ctx, F, tag):
